@@ -15,6 +15,7 @@ RULE = ('valid programs (random derivations of the grammar, 1-5 statements, acce
         '(6) LF -> CRLF, (7) a trailing comma after the last argument/element/entry of every call, method call, pipe call, list and dict, one at a time and all '
         'together, (8) redundant parentheses around every subexpression, one at a time and in random combinations, (9) the three spellings r.f(a) / r | f(a) / '
         'f(r, a) of every call site. Non-trivial = a rewritten text differing from the base text was parsed and its tree compared; distinct = distinct (base, rewritten) text pair.')
+RULE += " Besides the neutral-tree comparison the implementation's own == on trees must hold; comment bodies contain FF/VT/FS-RS/NEL/U+2028/U+2029 followed by code-looking text; 15 % of the bases are preceded by an arbitrary earlier call."
 ASSUMPTIONS = ['the oracle is the implementation\'s own tree of the base text (metamorphic); R1 is used only for positions',
                'parentheses are added only around complete subexpressions (never parameter names, call names, assignment/del targets or lambda parameter lists)',
                'comments are placed only before existing line ends; ; <-> newline only at bracket depth 0; no trailing comma for empty lists or lambda parameter lists']
